@@ -261,7 +261,10 @@ func ttmlGenModel(r *fw.Rand, forWriter bool) ttmlModel {
 		if r.P(1, 8) {
 			t += fw.Pick(r, []int64{3600, 36000, 86400}) * 1e9
 		}
-		if t > 90*3600*1e9 {
+		if !forWriter && r.P(1, 12) {
+			t += fw.Pick(r, []int64{100, 123, 250}) * 3600 * 1e9 // a time expression has as many hour digits as it needs
+		}
+		if (forWriter && t > 90*3600*1e9) || t > 900*3600*1e9 {
 			t = r.I64n(1000) * 1e9
 		}
 		if forWriter {
